@@ -94,7 +94,7 @@ def run_kani_unit(pid, kspec, tier, evidence, problems):
     rec = {'unit': unit, 'backend': 'kani', 'file': rel}
     evidence['units'].append(rec)
     info = kunit.run(unit, rel, hs, jobs=int(os.environ.get('VERIF_KANI_JOBS', '8')), timeout=kspec.get('timeout', 3000),
-                     extra_args=kspec.get('extra_args', ()))
+                     extra_args=kspec.get('extra_args', ()), extra_units=kspec.get('extra_units', ()))
     rec['cmd'] = info['cmd']
     rec['wall_s'] = info['wall_s']
     rec['harnesses'] = {}
@@ -118,7 +118,7 @@ def run_kani_unit(pid, kspec, tier, evidence, problems):
                 problems['undecided'].append(f"{unit}::{h}: vacuity guard: only {r['covers_sat']} of {r['covers_total']} cover properties satisfiable")
         elif r['status'] == 'FAILED' and r['failed'] > 0:
             st = 'failed'
-            problems['failed'].append({'unit': unit, 'backend': 'kani', 'file': rel, 'harness': h,
+            problems['failed'].append({'unit': unit, 'backend': 'kani', 'file': rel, 'harness': h, 'extra_units': list(kspec.get('extra_units', ())),
                                        'obligation': f"{unit}::{h}: " + '; '.join(r['failed_checks'][:4]),
                                        'verifier_output': '\n'.join(r['failed_checks'])})
         else:
@@ -257,11 +257,12 @@ def main():
                            [q['obligation'] for q in problems['failed'] if q['unit'] == p['unit']]}
             tail = ''
             if p['backend'] == 'kani':
-                pb = kunit.playback(p['unit'], p['file'], p['harness'], None)
+                pb = kunit.playback(p['unit'], p['file'], p['harness'], None, extra_units=[tuple(x) for x in p.get('extra_units', [])])
                 payload['kani_playback'] = {k: pb.get(k) for k in ('test_src', 'ran', 'failed_natively', 'playback_cmd')}
                 payload['kani_playback_log'] = pb.get('log', '')[-2000:]
                 payload['harness'] = p['harness']
                 payload['file'] = p['file']
+                payload['extra_units'] = p.get('extra_units', [])
                 if not (pb.get('ran') and pb.get('failed_natively')):
                     tail = ' no-failing-input-found'
             else:
@@ -287,12 +288,21 @@ def do_replay(pid, path):
     if d.get('backend') == 'kani' and d.get('kani_playback', {}).get('test_src'):
         # re-execute the stored concrete test on the current tree
         import subprocess
-        root = kunit.prepare(d['unit'], d['file'])
+        xu = [tuple(x) for x in d.get('extra_units', [])]
+        root = kunit.prepare(d['unit'], d['file'], xu)
         try:
             repo = os.path.join(root, 'repo')
-            f = os.path.join(repo, d['file'])
-            s = open(f).read().rstrip()
-            s = s[:-1] + '\n' + d['kani_playback']['test_src'] + '\n}\n'
+            owner, owner_rel = d['unit'], d['file']
+            for (u, rel) in [(d['unit'], d['file']), *xu]:
+                if re.search(r'\bfn\s+' + re.escape(d.get('harness', '')) + r'\b', open(os.path.join(VERIF, 'kani', u + '.rs')).read()):
+                    owner, owner_rel = u, rel
+            f = os.path.join(repo, owner_rel)
+            s = open(f).read()
+            marker = f'mod verif_{owner} {{'
+            pos = s.index(marker)
+            from rustsrc import mask, match_brace
+            close = match_brace(mask(s), pos + len(marker) - 1)
+            s = s[:close] + '\n' + d['kani_playback']['test_src'] + '\n' + s[close:]
             open(f, 'w').write(s)
             tname = re.search(r'fn (kani_concrete_playback_\w+)', d['kani_playback']['test_src']).group(1)
             p = subprocess.run(['cargo', 'kani', 'playback', '-p', 'quizx', '-Z', 'concrete-playback', '--', tname], cwd=repo,
